@@ -17,8 +17,8 @@ const size_t PROP_MAXLEN_THOROUGH = 128;
 
 namespace {
 
-struct KMaker { std::string name; std::function<PDU*()> make; };
-struct TCheck { std::string name; std::function<void(PDU& top, PDU* k, const std::string& kname, Ctx& ctx)> run; };
+struct KMaker { std::string name; std::function<PDU*()> make; std::function<PDU*()> plain; };  // plain: the object a caching wrapper wraps (top layer)
+struct TCheck { std::string name; std::function<void(PDU& top, PDU* k, const PDU* kplain, const std::string& kname, Ctx& ctx)> run; };
 
 static const uint8_t PPI_BYTES[] = {0x00, 0x00, 0x08, 0x00, 0x69, 0x00, 0x00, 0x00,  // PPI header, dlt 105 (802.11)
                                     0xd4, 0x00, 0x00, 0x00, 0x00, 0x1c, 0xbf, 0x00, 0x01, 0x02};
@@ -40,9 +40,13 @@ std::vector<KMaker>& kmakers() {
         k.push_back({"RawPDU", [] { return (PDU*)new RawPDU("payload"); }});
         k.push_back({"PPI", [] { return (PDU*)new PPI(PPI_BYTES, sizeof PPI_BYTES); }});
         // the caching wrapper around a representative of every family
-#define X(C) k.push_back({"PDUCacher<" #C ">", [] { return mk_cacher<C>(); }});
+#define X(C) k.push_back({"PDUCacher<" #C ">", [] { return mk_cacher<C>(); }, [] { return mk_default<C>(); }});
         X(IP) X(TCP) X(UDP) X(EthernetII) X(IPv6) X(ICMP) X(DNS) X(DHCP) X(Dot11Beacon) X(Dot11Data) X(RSNEAPOL) X(RadioTap) X(ARP)
 #undef X
+        // caching wrappers around multi-layer packets
+        k.push_back({"PDUCacher<IP>(IP/TCP/RawPDU)", [] { return (PDU*)new PDUCacher<IP>(IP("1.2.3.4", "4.3.2.1") / TCP(1, 2) / RawPDU("x")); }, [] { return (PDU*)new IP(); }});
+        k.push_back({"PDUCacher<EthernetII>(Eth/IP/UDP/RawPDU)", [] { return (PDU*)new PDUCacher<EthernetII>(EthernetII() / IP("1.2.3.4", "4.3.2.1") / UDP(1, 2) / RawPDU("x")); }, [] { return (PDU*)new EthernetII(); }});
+        k.push_back({"PDUCacher<IPv6>(IPv6/ICMPv6)", [] { return (PDU*)new PDUCacher<IPv6>(IPv6("::1", "::2") / ICMPv6()); }, [] { return (PDU*)new IPv6(); }});
         // run-time variants: the class is decided from bytes
         for (unsigned type = 0; type < 4; ++type)
             for (unsigned sub = 0; sub < 16; ++sub) {
@@ -68,18 +72,29 @@ std::vector<KMaker>& kmakers() {
 std::string short_name(PDU* p) { return short_cls(demangled(typeid(*p))); }
 
 // does the helper hand back `k` (or anything) typed as T while k is not a T?
-template <class T>
-void check_pair(PDU& top, PDU* k, const std::string& kname, const std::string& tname, Ctx& ctx) {
+// U is T itself, or for T = PDUCacher<Y> the wrapped class Y.
+template <class T, class U>
+void check_pair(PDU& top, PDU* k, const PDU* kplain, const std::string& kname, const std::string& tname, Ctx& ctx) {
     const bool really = dynamic_cast<T*>(k) != nullptr;
     // what the helpers decide on, evaluated without performing the cast (a wrong static_cast is UB)
     const bool find_would_match = k->matches_flag(T::pdu_flag);
     const bool cast_would_match = T::pdu_flag == k->pdu_type();
-    // the caching wrapper deliberately reports the wrapped class' type flag: one root cause, one signature family
-    const bool wrapper = kname.find("PDUCacher<") != std::string::npos || tname.find("PDUCacher<") != std::string::npos;
-    const std::string fam = wrapper ? "C13:pducacher-masquerade:" : "C13:";
-    VCHECK(ctx, !find_would_match || really, fam + "find_pdu-wrong-type:K=" + kname + ":T=" + tname,
+    // The open finding "the caching wrapper masquerades as the class it wraps" covers exactly: a PDUCacher<X> answering like
+    // the X it wraps would (kplain), and a real Y being mistaken for PDUCacher<Y>. Anything else involving a wrapper is a
+    // different violation and keeps the ordinary signature.
+    const bool t_is_wrapper = !std::is_same<T, U>::value;
+    auto family = [&](bool matched_by_find) -> std::string {
+        bool masq = false;
+        if (kplain) masq = matched_by_find ? kplain->matches_flag(T::pdu_flag) : (kplain->pdu_type() == T::pdu_flag);
+        if (!masq && t_is_wrapper) masq = dynamic_cast<U*>(k) != nullptr || (kplain && dynamic_cast<const U*>(kplain) != nullptr);
+        return masq ? "C13:pducacher-masquerade:" : "C13:";
+    };
+    // a search by the object's own exact class always finds it
+    if (typeid(*k) == typeid(T))
+        VCHECK(ctx, find_would_match, "C13:own-class-not-found:K=" + kname, "find_pdu<" << tname << ">() does not find an object whose exact class is " << tname << " (" << kname << ")");
+    VCHECK(ctx, !find_would_match || really, family(true) + "find_pdu-wrong-type:K=" + kname + ":T=" + tname,
            "find_pdu<" << tname << ">() matches an object of class " << kname << " (" << demangled(typeid(*k)) << "), which is not a " << tname);
-    VCHECK(ctx, !cast_would_match || really, fam + "tins_cast-wrong-type:K=" + kname + ":T=" + tname,
+    VCHECK(ctx, !cast_would_match || really, family(false) + "tins_cast-wrong-type:K=" + kname + ":T=" + tname,
            "tins_cast<" << tname << "*>() accepts an object of class " << kname << " (" << demangled(typeid(*k)) << "), which is not a " << tname);
     if ((find_would_match || cast_would_match) && !really) return;  // known finding: do not execute the bad cast
     T* c = tins_cast<T*>(k);
@@ -92,7 +107,8 @@ void check_pair(PDU& top, PDU* k, const std::string& kname, const std::string& t
         for (PDU* p = start; p; p = p->inner_pdu()) if (p->matches_flag(T::pdu_flag)) { first = p; break; }
         if (first && !dynamic_cast<T*>(first)) {
             const std::string fn = short_name(first);
-            const bool w2 = fn.find("PDUCacher<") != std::string::npos || tname.find("PDUCacher<") != std::string::npos;
+            // in a chain the stopping layer may be another object than k: a wrapper there is judged by the same rule when it is k
+            bool w2 = first == k ? family(true) != "C13:" : ((fn.find("PDUCacher<") != std::string::npos && fn.find("(") == std::string::npos) || (t_is_wrapper && dynamic_cast<U*>(first) != nullptr));
             VCHECK(ctx, false, std::string(w2 ? "C13:pducacher-masquerade:" : "C13:") + "find_pdu-wrong-type:K=" + fn + ":T=" + tname,
                    "chain search for " << tname << " stops at a " << demangled(typeid(*first)));
             continue;
@@ -111,10 +127,10 @@ void check_pair(PDU& top, PDU* k, const std::string& kname, const std::string& t
 std::vector<TCheck>& tchecks() {
     static std::vector<TCheck> T = [] {
         std::vector<TCheck> t;
-#define X(C) t.push_back({#C, [](PDU& top, PDU* k, const std::string& kn, Ctx& ctx) { check_pair<C>(top, k, kn, #C, ctx); }});
+#define X(C) t.push_back({#C, [](PDU& top, PDU* k, const PDU* kp, const std::string& kn, Ctx& ctx) { check_pair<C, C>(top, k, kp, kn, #C, ctx); }});
         VERIF_VIEW_CLASSES(X)
 #undef X
-#define X(C) t.push_back({"PDUCacher<" #C ">", [](PDU& top, PDU* k, const std::string& kn, Ctx& ctx) { check_pair<PDUCacher<C> >(top, k, kn, "PDUCacher<" #C ">", ctx); }});
+#define X(C) t.push_back({"PDUCacher<" #C ">", [](PDU& top, PDU* k, const PDU* kp, const std::string& kn, Ctx& ctx) { check_pair<PDUCacher<C>, C>(top, k, kp, kn, "PDUCacher<" #C ">", ctx); }});
         X(IP) X(TCP) X(EthernetII) X(Dot11Beacon) X(DNS)
 #undef X
         return t;
@@ -148,6 +164,18 @@ void prop(Src& s, Ctx& ctx) {
             break;
         }
     }
+    if (state_mode != 0 && s.chance(60)) {
+        // state-dependent type reporting shows up against the object's own class and its relatives: prefer those T
+        std::vector<size_t> fam;
+        std::string kn = short_cls(demangled(typeid(*k)));
+        for (size_t t = 0; t < T.size(); ++t) {
+            const std::string& tn = T[t].name;
+            bool rel = tn == kn || (kn.compare(0, 5, "Dot11") == 0 && tn.compare(0, 5, "Dot11") == 0) || (kn.find("EAPOL") != std::string::npos && tn.find("EAPOL") != std::string::npos) ||
+                       ((kn == "DHCP" || kn == "BootP") && (tn == "DHCP" || tn == "BootP"));
+            if (rel) fam.push_back(t);
+        }
+        if (!fam.empty()) ti = fam[s.pick(fam.size())];
+    }
     PDU* kraw = k.get();
     // own exact class always finds the object: checked through the T entry with the same name when there is one
     std::unique_ptr<PDU> top;
@@ -170,7 +198,8 @@ void prop(Src& s, Ctx& ctx) {
     std::string desc = "K=" + K[ki].name + " (dynamic type " + demangled(typeid(*kraw)) + ") T=" + T[ti].name + " chain=" + layer_chain(*top);
     if (ctx.logging()) ctx.log(desc);
     ctx.hash(ki); ctx.hash(ti); ctx.hash(layer_chain(*top));
-    T[ti].run(*top, kraw, K[ki].name, ctx);
+    std::unique_ptr<PDU> kplain(K[ki].plain ? K[ki].plain() : nullptr);
+    T[ti].run(*top, kraw, kplain.get(), K[ki].name, ctx);
     // non-trivial: the answer is not obvious from the names (T is a base of K, same family, or a wrapper is involved)
     bool family = (K[ki].name.compare(0, 5, "Dot11") == 0 && T[ti].name.compare(0, 5, "Dot11") == 0) || K[ki].name.find("EAPOL") != std::string::npos ||
                   K[ki].name.find("PDUCacher") != std::string::npos || T[ti].name.find("PDUCacher") != std::string::npos ||
